@@ -98,6 +98,7 @@ let make_oracles cfg : oracles =
         | None | Some "ok" -> QQ_ok
         | Some p when starts_with p "exit:" ->
             let c = int_of_string (String.sub p 5 (String.length p - 5)) in if c = 0 then QQ_ok else QQ_exit (nat_of_int c)
+        | Some p when starts_with p "ce:" -> QQ_die_write
         | Some p when starts_with p "die:" ->
             if starts_with p "die:a" then (if ends_with p ":sig" then QQ_signal else
                                              let c = int_of_string (List.nth (String.split_on_char ':' p) 3) in
